@@ -119,7 +119,7 @@ func c17Accepts(ae string) bool {
 		name := strings.ToLower(strings.TrimSpace(f[0]))
 		q := "1"
 		for _, p := range f[1:] {
-			p = strings.TrimSpace(p)
+			p = strings.ToLower(strings.TrimSpace(p)) // the name of the weight parameter is "q" in either case (RFC 9110 5.6.6, RFC 5234 2.3)
 			if strings.HasPrefix(p, "q=") {
 				q = strings.TrimPrefix(p, "q=")
 			}
